@@ -1063,7 +1063,7 @@ class Filterbank(ABC):
         gulp = max(2 * max_delay, gulp)
         # the kernel accumulates into out_ar, so it is zeroed before every block
         out_ar = np.zeros((gulp - max_delay) * nsub, dtype="float32")
-        new_foff = self.header.foff * self.header.nchans // nsub
+        new_foff = self.header.foff * self.header.nchans / nsub
         new_fch1 = self.header.ftop - new_foff / 2
         chan_to_sub = np.arange(self.header.nchans, dtype="int32") // subfactor
         updates = {
